@@ -1,7 +1,7 @@
 (* EXTRACT-F: c11 frun_c11 *)
 (* Wire decoding + entry point of the C11 correspondence: the abstract description, the two geometric oracles
    and the conductivities come in; everything Geometry derives goes out. *)
-From OM Require Import Base.Lists Base.Ops Base.Wire Geom.GeomModel Geom.CondFile Geom.GeomFile.
+From OM Require Import Base.Lists Base.Ops Base.Wire Geom.GeomModel Geom.CondFile Geom.GeomFile Geom.SaveGeom.
 Local Open Scope Z_scope.
 
 Definition getTri : dec (nat * nat * nat) := do a <- getN; do b <- getN; do c <- getN; ret (a, b, c).
@@ -106,7 +106,11 @@ Definition run_case (c : c11case) (fs : list F) : list Z * list F :=
         ++ map (fun p => relative_orientation g (fst p) (snd p)) prs
         ++ [zn (length (mk_parts mk))] ++ flat_map (fun p => zn (length p) :: map zn p) (mk_parts mk)
         ++ map (fun ins => zopt (domain_of_point g (fun i => nth i ins false))) (c_probes c)
-        ++ [zn (length (g_doms g))] ++ flat_map out_domain (g_doms g),
+        ++ [zn (length (g_doms g))] ++ flat_map out_domain (g_doms g)
+        (* Geometry::save to a .geom file: the Meshes and Interfaces sections *)
+        ++ [zn (length (saved_meshes g))] ++ map zn (saved_meshes g)
+        ++ [zn (length (saved_ifaces g))]
+        ++ flat_map (fun i => zn (length (snd i)) :: flat_map (fun om => [fst om; zn (snd om)]) (snd i)) (saved_ifaces g),
         flat_map (fun p => [sigma o g conds (fst p) (snd p); sigma_inv o g conds (fst p) (snd p);
                             indicator o g conds (fst p) (snd p)]) prs
         ++ map (conductivity_jump o g conds) (seq 0 nm) ++ conds )
